@@ -129,6 +129,17 @@ def edfa_library(draw, n=(2, 6), kinds=('variable_gain', 'fixed_gain', 'advanced
             if is_raman:
                 d['raman'] = True
             out.append(d)
+    if raman and draw(st.integers(0, 2)) > 0:
+        # hybrid Raman / EDFA like the shipped hybrid_4pumps models: a low-noise Raman stage (not selectable alone) in front of
+        # one of the EDFAs; quiet enough to be the best choice wherever the Raman rule permits it
+        boo = next((e for e in out if e['type_def'] in ('variable_gain', 'fixed_gain')), None)
+        if boo is not None:
+            g = draw(st.sampled_from([8, 10, 12]))
+            out.append({'type_variety': 'RP', 'type_def': 'fixed_gain', 'gain_flatmax': g, 'gain_min': g, 'p_max': 21,
+                        'nf0': draw(st.sampled_from([-1.0, 0.0, 1.5])), 'allowed_for_design': False})
+            out.append({'type_variety': 'HY', 'type_def': 'dual_stage', 'raman': True, 'gain_min': g + boo['gain_min'],
+                        'preamp_variety': 'RP', 'booster_variety': boo['type_variety'],
+                        'allowed_for_design': draw(st.integers(0, 3)) > 0})
     return out
 
 
@@ -349,8 +360,11 @@ def fiber_params(draw, length_km=None, lumped=True, per_freq_loss=True, connecto
                                                                   if draw(st.booleans()) else draw(st.floats(*loss)), 4)}
     if per_freq_loss and draw(st.integers(0, 7)) == 0:
         base = p['loss_coef']
-        p['loss_coef'] = {'value': [_r(base + 0.02, 4), base, _r(base + 0.01, 4), _r(base + 0.03, 4)],
-                          'frequency': [184e12, 190e12, 194e12, 198e12]}
+        # several profiles: the value at the reference frequency (193.4 THz) may be the lowest of the table, so that the
+        # fibre is below a lineic-loss limit there and above it elsewhere
+        shape = draw(st.sampled_from([[0.02, 0.0, 0.01, 0.03], [0.03, -0.01, -0.005, 0.04], [0.0, 0.0, 0.0, 0.05],
+                                      [0.06, 0.02, 0.0, 0.0]]))
+        p['loss_coef'] = {'value': [_r(base + d, 4) for d in shape], 'frequency': [184e12, 190e12, 194e12, 198e12]}
     if connectors:
         c = draw(st.sampled_from(['null', 'null', 'val', 'zero']))
         if c == 'null':
